@@ -159,6 +159,7 @@ _reg("lex4", f_lex, 4, 0, 2)
 _reg("lex4n", f_lex, 4, -1, 1)
 _reg("lex6", f_lex, 6, 0, 1)
 _reg("lex6w", f_lex, 6, 0, 2)
+_reg("lex8", f_lex, 8, 0, 1)
 for _a in ("max_eq", "max_leq", "min_eq", "min_geq"):
     for _n in (2, 3, 4):
         _reg(f"{_a}{_n}", f_maxmin, _a, _n, -1, 2)
@@ -171,6 +172,10 @@ _reg("relation2_2", f_relation, 2, 2, 0, 2)
 _reg("relation2_3", f_relation, 2, 3, 0, 1)
 _reg("relation3_2", f_relation, 3, 2, 0, 1)
 _reg("dummy", f_dummy)
+
+
+# families small enough and structured enough to be run completely in the quick tier as well
+FULL_IN_QUICK = {"lex8", "lex4", "lex4n", "alldifferent4", "alldifferent5"}
 
 
 def family(name):
